@@ -193,38 +193,41 @@ Section WithResponses.
     destruct (is_head c); [discriminate|]. destruct (nobody_code (s_code s)); discriminate.
   Qed.
 
+  Lemma not_persistent_not_open c ops : persistent c = false -> respond_open responses c ops = false.
+  Proof. unfold respond_open, stays_open. intros ->. reflexivity. Qed.
+
   Definition conn_reqs (qs : list request) : list (cfg * list op) := map (fun q => (q_cfg q, q_ops q)) qs.
 
   Lemma run_conn_bytes qs :
     fst (fst (run_conn responses (conn_reqs qs)))
-    = concat (map (fun q => fst (respond responses (q_cfg q) (q_ops q))) (answered qs)).
+    = concat (map (fun q => fst (respond responses (q_cfg q) (q_ops q))) (answered responses qs)).
   Proof.
     induction qs as [|q r IH]; [reflexivity|]. cbn [conn_reqs map run_conn answered].
     destruct (respond responses (q_cfg q) (q_ops q)) as [b es] eqn:E.
-    destruct (persistent (q_cfg q)).
+    destruct (respond_open responses (q_cfg q) (q_ops q)).
     - fold (conn_reqs r). destruct (run_conn responses (conn_reqs r)) as [[b' ess] cl]. cbn [fst] in *.
       cbn [map concat]. rewrite E, IH. reflexivity.
     - cbn [fst map concat]. rewrite E, app_nil_r. reflexivity.
   Qed.
 
   Lemma run_conn_closed qs :
-    snd (run_conn responses (conn_reqs qs)) = existsb (fun q => negb (persistent (q_cfg q))) qs.
+    snd (run_conn responses (conn_reqs qs)) = existsb (fun q => negb (respond_open responses (q_cfg q) (q_ops q))) qs.
   Proof.
     induction qs as [|q r IH]; [reflexivity|]. cbn [conn_reqs map run_conn existsb].
     destruct (respond responses (q_cfg q) (q_ops q)) as [b es].
-    destruct (persistent (q_cfg q)); cbn [negb orb].
+    destruct (respond_open responses (q_cfg q) (q_ops q)); cbn [negb orb].
     - fold (conn_reqs r). destruct (run_conn responses (conn_reqs r)) as [[b' ess] cl]. exact IH.
     - reflexivity.
   Qed.
 
   Theorem connection_parses qs : Forall (req_ok responses) qs ->
-    parse_stream (map (fun q => is_head (q_cfg q)) (answered qs)) (fst (fst (run_conn responses (conn_reqs qs))))
-    = Some (map (q_expected responses) (answered qs)).
+    parse_stream (map (fun q => is_head (q_cfg q)) (answered responses qs)) (fst (fst (run_conn responses (conn_reqs qs))))
+    = Some (map (q_expected responses) (answered responses qs)).
   Proof.
     intro H. rewrite run_conn_bytes. induction H as [|q r Hq Hr IH]; [reflexivity|].
-    cbn [answered]. destruct (persistent (q_cfg q)) eqn:Ep.
+    cbn [answered]. destruct (respond_open responses (q_cfg q) (q_ops q)) eqn:Ep.
     - cbn [map concat parse_stream]. rewrite request_parses; [rewrite IH; reflexivity|exact Hq|].
-      intro Hsd. apply close_delimited_not_persistent in Hsd. congruence.
+      intro Hsd. apply close_delimited_not_persistent in Hsd. rewrite (not_persistent_not_open _ _ Hsd) in Ep. discriminate.
     - cbn [map concat parse_stream]. rewrite request_parses; [reflexivity|exact Hq|]. reflexivity.
   Qed.
 End WithResponses.
@@ -320,8 +323,13 @@ Qed.
 
 Lemma framing_consistent_all (responses : N -> bytes) :
   (forall c s ws, self_delimited (expected c s ws) = false -> persistent c = false) /\
-  (forall qs, snd (run_conn responses (conn_reqs qs)) = existsb (fun q => negb (persistent (q_cfg q))) qs).
-Proof. split; [exact close_delimited_not_persistent|exact (run_conn_closed responses)]. Qed.
+  (forall qs, snd (run_conn responses (conn_reqs qs)) = existsb (fun q => negb (respond_open responses (q_cfg q) (q_ops q))) qs) /\
+  (forall c ops, respond_open responses c ops = true ->
+     persistent c = true /\ s_saidclose (finish c (fst (run_ops responses c (init c) ops))) = false).
+Proof.
+  split; [exact close_delimited_not_persistent|]. split; [exact (run_conn_closed responses)|].
+  intros c ops H. unfold respond_open, stays_open in H. apply andb_true_iff in H as [A B]. apply negb_true_iff in B. auto.
+Qed.
 
 Lemma table_invariant_all (responses : N -> bytes) c ops :
   tbl_inv (s_tbl (fst (run_ops responses c (init c) ops))).
@@ -351,4 +359,106 @@ Lemma sanitisation_all :
 Proof.
   repeat split; [exact san_no_crlf|exact csan_clean| |exact san_idem].
   intros ck b H. pose proof (cookie_bytes_clean ck) as C. rewrite H in C. exact C.
+Qed.
+
+(** ---------- the structure of a cookie: name=value and well-formed attributes only ---------- *)
+
+Definition clean_byte (c : N) : bool := negb (is_crlf_byte c) && negb (c =? 59).
+Definition clean (p : bytes) : Prop := forallb clean_byte p = true.
+
+Lemma clean_app a b : clean a -> clean b -> clean (a ++ b).
+Proof. unfold clean. intros A B. rewrite forallb_app, A, B. reflexivity. Qed.
+
+Lemma clean_csan v : clean (csan v).
+Proof. exact (csan_clean v). Qed.
+
+Lemma attr_form_clean p : attr_form p -> clean p.
+Proof.
+  intros [(label & x & Hl & ->)|[->|[->|[->| ->]]]]; try reflexivity.
+  apply clean_app; [|apply clean_csan]. cbn in Hl. destruct Hl as [<-|[<-|[<-|[<-|[<-|[]]]]]]; reflexivity.
+Qed.
+
+Definition cookie_ok (k v b : bytes) : Prop :=
+  exists attrs, b = glue (csan k ++ [61] ++ csan v) attrs /\ Forall attr_form attrs.
+
+Definition res_ok (k v : bytes) (r : res bytes) : Prop := match r with Good b => cookie_ok k v b | Bad _ => True end.
+
+Lemma glue_snoc first attrs p : glue first attrs ++ 59 :: 32 :: p = glue first (attrs ++ [p]).
+Proof. unfold glue. rewrite flat_map_app, <- app_assoc. cbn. rewrite app_nil_r. reflexivity. Qed.
+
+Lemma cookie_ok_snoc k v acc p : cookie_ok k v acc -> attr_form p -> cookie_ok k v (acc ++ 59 :: 32 :: p).
+Proof.
+  intros (attrs & -> & Ha) Hp. exists (attrs ++ [p]). split; [apply glue_snoc|]. apply Forall_app. split; [exact Ha|constructor; [exact Hp|constructor]].
+Qed.
+
+Lemma opt_attr_ok k v label' label o kont acc : label = 59 :: 32 :: label' -> In label' attr_labels ->
+  (forall a, cookie_ok k v a -> res_ok k v (kont a)) -> cookie_ok k v acc -> res_ok k v (opt_attr label o kont acc).
+Proof.
+  intros -> Hl Hk Ha. unfold opt_attr. destruct o as [t|]; [|apply Hk, Ha].
+  destruct (enc_value t) as [b|]; [|exact I]. apply Hk.
+  change (acc ++ (59 :: 32 :: label') ++ csan b) with (acc ++ 59 :: 32 :: (label' ++ csan b)).
+  apply cookie_ok_snoc; [exact Ha|]. left. exists label', b. auto.
+Qed.
+
+Lemma cookie_structure ck :
+  match enc_value (ck_k ck), enc_value (ck_v ck) with
+  | Good k, Good v => res_ok k v (cookie_bytes ck)
+  | _, _ => True
+  end.
+Proof.
+  unfold cookie_bytes. destruct (enc_value (ck_k ck)) as [k|]; [|exact I]. destruct (enc_value (ck_v ck)) as [v|]; [|exact I].
+  assert (H0 : cookie_ok k v (csan k ++ [61] ++ csan v)).
+  { exists []. split; [unfold glue; cbn; rewrite app_nil_r; reflexivity|constructor]. }
+  eapply (opt_attr_ok k v (skipn 2 A_EXPIRES)); [reflexivity|cbn; auto| |exact H0].
+  intros a1 H1. eapply (opt_attr_ok k v (skipn 2 A_DOMAIN)); [reflexivity|cbn; auto| |exact H1].
+  intros a2 H2. eapply (opt_attr_ok k v (skipn 2 A_PATH)); [reflexivity|cbn; auto| |exact H2].
+  intros a3 H3. eapply (opt_attr_ok k v (skipn 2 A_MAXAGE)); [reflexivity|cbn; auto 6| |exact H3].
+  intros a4 H4. eapply (opt_attr_ok k v (skipn 2 A_COMMENT)); [reflexivity|cbn; auto 7| |exact H4].
+  intros a5 H5.
+  assert (H6 : cookie_ok k v (if ck_secure ck then a5 ++ A_SECURE else a5)).
+  { destruct (ck_secure ck); [|exact H5]. apply (cookie_ok_snoc k v a5 (skipn 2 A_SECURE) H5). right. left. reflexivity. }
+  set (a6 := if ck_secure ck then a5 ++ A_SECURE else a5) in *.
+  assert (H7 : cookie_ok k v (if ck_httpOnly ck then a6 ++ A_HTTPONLY else a6)).
+  { destruct (ck_httpOnly ck); [|exact H6]. apply (cookie_ok_snoc k v a6 (skipn 2 A_HTTPONLY) H6). right. right. left. reflexivity. }
+  set (a7 := if ck_httpOnly ck then a6 ++ A_HTTPONLY else a6) in *.
+  cbv zeta. fold a6. fold a7.
+  destruct (ck_sameSite ck) as [t|]; [|exact H7]. destruct (enc_value t) as [b|]; [|exact I].
+  destruct b as [|x b']; [exact H7|].
+  destruct (beq (map lower (x :: b')) w_lax || beq (map lower (x :: b')) w_strict) eqn:E; [|exact I].
+  cbn [res_ok]. apply orb_true_iff in E as [E|E]; apply beq_eq in E; rewrite E.
+  - apply (cookie_ok_snoc k v a7 (skipn 2 A_SAMESITE ++ w_lax) H7). right. right. right. left. reflexivity.
+  - apply (cookie_ok_snoc k v a7 (skipn 2 A_SAMESITE ++ w_strict) H7). right. right. right. right. reflexivity.
+Qed.
+
+Lemma split_semi_clean p : clean p -> split_semi p = [p].
+Proof.
+  unfold clean. induction p as [|c p IH]; [reflexivity|]. cbn [forallb split_semi]. intro H. apply andb_true_iff in H as [Hc Hp].
+  unfold clean_byte in Hc. apply andb_true_iff in Hc as [_ Hc]. apply negb_true_iff in Hc. rewrite Hc, (IH Hp). reflexivity.
+Qed.
+
+Lemma split_semi_clean_app p r : clean p -> split_semi (p ++ 59 :: r) = p :: split_semi r.
+Proof.
+  unfold clean. induction p as [|c p IH]; [reflexivity|]. cbn [forallb split_semi app]. intro H. apply andb_true_iff in H as [Hc Hp].
+  unfold clean_byte in Hc. apply andb_true_iff in Hc as [_ Hc]. apply negb_true_iff in Hc. rewrite Hc, (IH Hp). reflexivity.
+Qed.
+
+Lemma split_glue first attrs : clean first -> Forall clean attrs -> split_semi (glue first attrs) = first :: map (cons 32) attrs.
+Proof.
+  unfold glue. intros Hf Ha. revert first Hf. induction Ha as [|p attrs Hp _ IH]; intros first Hf.
+  - cbn. rewrite app_nil_r. apply split_semi_clean, Hf.
+  - cbn [flat_map map app]. rewrite split_semi_clean_app by exact Hf. f_equal.
+    change (32 :: p ++ flat_map (fun p0 => 59 :: 32 :: p0) attrs) with ((32 :: p) ++ flat_map (fun p0 => 59 :: 32 :: p0) attrs).
+    apply IH. unfold clean in *. cbn [forallb]. rewrite Hp. reflexivity.
+Qed.
+
+(** assembled: what a recipient that splits an accepted cookie at ";" sees *)
+Lemma cookie_attributes_exact ck k v b :
+  enc_value (ck_k ck) = Good k -> enc_value (ck_v ck) = Good v -> cookie_bytes ck = Good b ->
+  exists attrs, Forall attr_form attrs /\ b = glue (csan k ++ [61] ++ csan v) attrs /\
+                split_semi b = (csan k ++ [61] ++ csan v) :: map (cons 32) attrs.
+Proof.
+  intros Hk Hv Hb. pose proof (cookie_structure ck) as H. rewrite Hk, Hv, Hb in H. destruct H as (attrs & -> & Ha).
+  exists attrs. split; [exact Ha|]. split; [reflexivity|]. apply split_glue.
+  - apply clean_app; [apply clean_csan|]. apply clean_app; [reflexivity|apply clean_csan].
+  - eapply Forall_impl; [|exact Ha]. intros p. apply attr_form_clean.
 Qed.
